@@ -677,7 +677,7 @@ impl Rule {
         match self {
             Rule::Announce => e.contract == "axelar-gateway" || e.contract == "example" || e.contract == "interchain-token-service",
             Rule::GasOut => e.contract == "axelar-gas-service" || e.types.iter().any(|t| t == "Token"),
-            Rule::Roles => ["transfer_", "add_", "remove_", "set_"].iter().any(|p| e.name.starts_with(p)),
+            Rule::Roles => ["transfer_", "add_", "remove_", "set_", "upgrade", "migrate"].iter().any(|p| e.name.starts_with(p)),
             Rule::Code => e.name.contains("upgrade") || e.name.contains("migrate"),
             Rule::Proofless => e.contract == "axelar-gateway",
             Rule::Consume => e.name.contains("validate_message"),
@@ -923,18 +923,19 @@ fn step(sw: &SweepWorld, ep: &Ep, seeds: &[u64], pick: u64, cx: &mut Cx, rule: R
                 }
             }
         }
-        Rule::Code => {
-            for (i, c) in owned.iter().enumerate() {
-                let migrated = evs.iter().any(|e| e.0 == *c && e.1.first() == Some(&sym("upgraded")));
-                if before.flags[i] != after.flags[i] || migrated {
-                    cx.count("sweep_code_or_migration_state_changed");
-                    if !before.owners[i].as_ref().map(|o| authorised(o)).unwrap_or(false) {
-                        return Err(format!("{} replaced the code of / migrated contract #{} without its owner's authorisation", what, i));
-                    }
+        _ => {}
+    }
+    // upgrade and migrate are administrative entry points (C06) as well as C15's subject
+    if matches!(rule, Rule::Code | Rule::Roles) {
+        for (i, c) in owned.iter().enumerate() {
+            let migrated = evs.iter().any(|e| e.0 == *c && e.1.first() == Some(&sym("upgraded")));
+            if before.flags[i] != after.flags[i] || migrated {
+                cx.count("sweep_code_or_migration_state_changed");
+                if !before.owners[i].as_ref().map(|o| authorised(o)).unwrap_or(false) {
+                    return Err(format!("{} replaced the code of / migrated contract #{} without its owner's authorisation", what, i));
                 }
             }
         }
-        _ => {}
     }
     match rule {
         Rule::Proofless => {
